@@ -170,6 +170,8 @@ impl UnsafeMoveList {
 
 impl MovePush for UnsafeMoveList {
     fn push(&mut self, m: Move) {
+        #[cfg(feature = "verif-hooks")]
+        crate::verif_hooks::observe_list_push(self.0.len(), self.0.capacity());
         unsafe {
             self.0.push_unchecked(m);
         }
